@@ -438,6 +438,13 @@ type mdiag struct {
 	StrictVer bool   `json:"strictver"`
 }
 
+type medit struct {
+	Ek   string   `json:"ek"`
+	K    int      `json:"k"`
+	S    string   `json:"s"`
+	Full []string `json:"full"`
+}
+
 type mstep struct {
 	M        string   `json:"m"`
 	Kind     string   `json:"kind"`
@@ -447,10 +454,7 @@ type mstep struct {
 	Params   string   `json:"params"`
 	Lines    []string `json:"lines"`
 	Ver      int      `json:"ver"`
-	Edit     string   `json:"edit"`
-	K        int      `json:"k"`
-	S        string   `json:"s"`
-	Full     []string `json:"full"`
+	Edits    []medit  `json:"edits"`
 	WithText bool     `json:"withText"`
 	Out      struct {
 		Must []int   `json:"must"`
@@ -514,25 +518,33 @@ func notificationFrame(s mstep, salt int, before mdoc) []byte {
 	case "didOpen":
 		return frame(`{"jsonrpc":"2.0","method":"textDocument/didOpen","params":{` + td(fmt.Sprintf(`,"languageId":"sql","version":%d,"text":%s`, s.Ver, q(docText(s.Lines, salt)))) + `}}`)
 	case "didChange":
-		var change string
+		var changes []string
 		n := len(before.Lines)
-		switch s.Edit {
-		case "full":
-			change = `{"text":` + q(docText(s.Full, salt)) + `}`
-		case "replaceLine":
-			change = `{"range":` + lineRange(s.K-1, 0, s.K, 0) + `,"text":` + q(stmtText(s.S, salt+s.K-1)) + `}`
-		case "insertLine":
-			change = `{"range":` + lineRange(s.K-1, 0, s.K-1, 0) + `,"text":` + q(stmtText(s.S, salt+s.K-1)) + `}`
-		case "deleteLine":
-			change = `{"range":` + lineRange(s.K-1, 0, s.K, 0) + `,"text":""}`
-		case "appendPastEnd":
-			change = `{"range":` + lineRange(n+40, 7, n+41, 900) + `,"text":` + q(stmtText(s.S, salt+n)) + `}`
-		case "negativeRange":
-			change = `{"range":` + lineRange(-1, -3, 0, 2) + `,"text":"x"}`
-		case "invertedRange":
-			change = `{"range":` + lineRange(1, 2, 0, 1) + `,"text":"y"}`
+		for _, e := range s.Edits {
+			var change string
+			switch e.Ek {
+			case "full":
+				change = `{"text":` + q(docText(e.Full, salt)) + `}`
+				n = len(e.Full)
+			case "replaceLine":
+				change = `{"range":` + lineRange(e.K-1, 0, e.K, 0) + `,"text":` + q(stmtText(e.S, salt+e.K-1)) + `}`
+			case "insertLine":
+				change = `{"range":` + lineRange(e.K-1, 0, e.K-1, 0) + `,"text":` + q(stmtText(e.S, salt+e.K-1)) + `}`
+				n++
+			case "deleteLine":
+				change = `{"range":` + lineRange(e.K-1, 0, e.K, 0) + `,"text":""}`
+				n--
+			case "appendPastEnd":
+				change = `{"range":` + lineRange(n+40, 7, n+41, 900) + `,"text":` + q(stmtText(e.S, salt+n)) + `}`
+				n++
+			case "negativeRange":
+				change = `{"range":` + lineRange(-1, -3, 0, 2) + `,"text":"x"}`
+			case "invertedRange":
+				change = `{"range":` + lineRange(1, 2, 0, 1) + `,"text":"y"}`
+			}
+			changes = append(changes, change)
 		}
-		return frame(`{"jsonrpc":"2.0","method":"textDocument/didChange","params":{` + td(fmt.Sprintf(`,"version":%d`, s.Ver)) + `,"contentChanges":[` + change + `]}}`)
+		return frame(`{"jsonrpc":"2.0","method":"textDocument/didChange","params":{` + td(fmt.Sprintf(`,"version":%d`, s.Ver)) + `,"contentChanges":[` + strings.Join(changes, ",") + `]}}`)
 	case "didClose":
 		return frame(`{"jsonrpc":"2.0","method":"textDocument/didClose","params":{` + td("") + `}}`)
 	case "didSave":
@@ -607,10 +619,14 @@ func runConversation(raw string) {
 			Observe: obs, Expect: expect})
 	}
 	prev := map[string]mdoc{}
+	lastPub := map[string]*struct {
+		Ver   int
+		Lines []int
+	}{}
 	for i, s := range h {
 		label := s.M
-		if s.Edit != "" {
-			label += ":" + s.Edit
+		for _, e := range s.Edits {
+			label += ":" + e.Ek
 		}
 		if s.Pos != "" && s.Pos != "inrange" {
 			label += "@" + s.Pos
@@ -692,10 +708,8 @@ func runConversation(raw string) {
 			}
 		}
 		// diagnostics
-		lastPub := map[string]*struct {
-			Ver   int
-			Lines []int
-		}{}
+		// what counts is the last publishDiagnostics per document over the whole conversation (a server
+		// may skip re-sending an identical payload)
 		for _, m := range msgs {
 			if m.Method == "textDocument/publishDiagnostics" {
 				var p struct {
@@ -767,20 +781,25 @@ func expectedText(u string, s mstep, prev map[string]mdoc, salt int) string {
 	if len(lines) > 0 && lines[len(lines)-1] == "" {
 		lines = lines[:len(lines)-1]
 	}
-	if !prev[u].Known && s.Edit != "full" {
-		return old
-	}
-	switch s.Edit {
-	case "full":
-		return docText(s.Full, salt)
-	case "replaceLine":
-		lines[s.K-1] = stmtText(s.S, salt+s.K-1)
-	case "insertLine":
-		lines = append(lines[:s.K-1], append([]string{stmtText(s.S, salt+s.K-1)}, lines[s.K-1:]...)...)
-	case "deleteLine":
-		lines = append(lines[:s.K-1], lines[s.K:]...)
-	case "appendPastEnd":
-		lines = append(lines, stmtText(s.S, salt+len(prev[u].Lines)))
+	known := prev[u].Known
+	for _, e := range s.Edits {
+		if !known && e.Ek != "full" {
+			continue
+		}
+		switch e.Ek {
+		case "full":
+			lines = strings.SplitAfter(docText(e.Full, salt), "\n")
+			lines = lines[:len(lines)-1]
+			known = true
+		case "replaceLine":
+			lines[e.K-1] = stmtText(e.S, salt+e.K-1)
+		case "insertLine":
+			lines = append(lines[:e.K-1], append([]string{stmtText(e.S, salt+e.K-1)}, lines[e.K-1:]...)...)
+		case "deleteLine":
+			lines = append(lines[:e.K-1], lines[e.K:]...)
+		case "appendPastEnd":
+			lines = append(lines, stmtText(e.S, salt+len(lines)))
+		}
 	}
 	return strings.Join(lines, "")
 }
